@@ -586,6 +586,7 @@ def count_nested_constructions(tree: Tree) -> list[str]:
 
 def run(ctx: Check, tree: Tree) -> None:
     ctx.decided += [
+        'R-SHALLOW (arity): the field getter of the hooks yields a tuple for classes of every arity (operator.attrgetter(*names) does not for one field)',
         "reconstruction hooks (_eval_subs, _xreplace) installed by @unevaluated read arguments shallowly and completely (R-SHALLOW/R-COMPLETE)",
         "the substitution hooks visit every argument whenever the rule is non-empty; no pre-filter by free symbols (R-DESCEND)",
         "generated-code templates never put an unparenthesised printed sub-expression next to a tighter-binding operator (R-PREC)",
